@@ -10,14 +10,18 @@
 (*  {"e":"end"}                                                             *)
 (*  {"e":"fs","op":create_tmp|write_tmp|close_tmp|rename|create_final|     *)
 (*     open_final|read_final|unlink_final, "g"}  calls on <keys>/<guid>.*   *)
-(*  {"e":"net","op":status|acquire|attest|signed,"g","latches"} requests    *)
-(*     sent; latches: the host committed the latch on that attestation      *)
+(*  {"e":"net","op":status|acquire|attest|signed,"g","latches","file"}     *)
+(*     file: state of <keys>/<g>.key as the HOST read it at the instant the *)
+(*     attestation request arrived (key|none|corrupt; unknown otherwise);   *)
+(*     requests sent; latches: the host committed the latch on that attestation      *)
 (*     (its own record), whatever it then answered                          *)
 (*  {"e":"exit","killed","restart","final","tmp","latched","damaged",       *)
 (*   "latched0","good0","acquires","signedGuid","signedOk"}                 *)
 (* Clauses (names printed in <<"VERDICT", json>> when a case ends):         *)
-(*  AttestOnlyAfterStoreAndReadBack, TmpThenRename (a final name is only    *)
-(*  ever produced by renaming a written and closed temporary file),         *)
+(*  AttestOnlyAfterStoreAndReadBack, AttestedKeyOnDisk (a complete file     *)
+(*  equal to the issued key exists when the host receives the attestation), *)
+(*  TmpThenRename (a final name is only ever                                *)
+(*  produced by renaming a written and closed temporary file),         *)
 (*  LatchedIsRecoverable, NoCorruptFinalName (C08_*On of KeyKeeper.tla on   *)
 (*  the real directory when a process ends; LatchedIsRecoverable also after *)
 (*  every system call, on the final names as the calls leave them and the   *)
@@ -92,6 +96,9 @@ TNet   == /\ Row.e = "net"
           /\ lat' = IF Row.op = "attest" /\ Row.latches THEN Row.g ELSE lat
           /\ viol' = viol \cup (IF Row.op = "attest" /\ ~(Known(Row.g) /\ st[Row.g] = "readback")
                                 THEN {"AttestOnlyAfterStoreAndReadBack"} ELSE {})
+                           \* what the host itself saw in the key directory when the attestation request reached it
+                           \cup (IF Row.op = "attest" /\ Row.file \in {"none", "corrupt"}
+                                THEN {"AttestedKeyOnDisk"} ELSE {})
                            \cup NowBad(ff, lat', dmg)
           /\ nev' = nev + 1 /\ UNCHANGED <<st, caseid, ff, dmg>> /\ Same
 TExit  == /\ Row.e = "exit" /\ viol' = viol \cup ExitBad(Row) /\ UNCHANGED <<st, caseid, nev, ff, lat, dmg>> /\ Same
